@@ -345,6 +345,10 @@ func RunRB(out, out2, mode string) {
 			{{K: "W", N: 1, Comp: true}, {K: "F"}, {K: "Wt"}, {K: "C"}},
 			{{K: "W", N: 2 * B, Comp: true}, {K: "Wt"}, {K: "C"}},
 			{{K: "W", N: 3 * B, Comp: true}, {K: "F"}, {K: "Wt"}, {K: "W", N: 1, Comp: true}, {K: "C"}},
+			// the caller goes on filling the next block while the emitter is held, and pauses before
+			// handing it over: whatever the held goroutine still does to a compressor lands in that window
+			{{K: "W", N: B + 5, Comp: true}, {K: "F"}, {K: "W", N: 7, Comp: true}, {K: "S", N: 80}, {K: "C"}},
+			{{K: "W", N: 2*B + 5, Comp: false}, {K: "W", N: 9, Comp: true}, {K: "S", N: 80}, {K: "F"}, {K: "Wt"}, {K: "C"}},
 		}
 		for _, h := range holds {
 			for _, s := range scripts {
